@@ -82,8 +82,7 @@ func c16Report(text []byte) (out []string) {
 	m := rebase.Parse(text)
 	out = append([]string{"ok"}, c16Entries(m)...)
 	// Read through a file
-	c14Counter++
-	path := filepath.Join(c14TmpDir(), fmt.Sprintf("c16-%d-%d.txt", os.Getpid(), c14Counter))
+	path := filepath.Join(c14TmpDir(), fmt.Sprintf("c16-%d-%d.txt", os.Getpid(), runner.Unique()))
 	readFlag := "read-diff"
 	if err := os.WriteFile(path, text, 0o644); err == nil {
 		m2, err2 := rebase.Read(path)
